@@ -688,6 +688,10 @@ func lazyXzTie(r *Result, dp *DriverPool, rng *rand.Rand, nbase int) error {
 			rng.Shuffle(len(ms), func(a, b int) { ms[a], ms[b] = ms[b], ms[a] })
 			for k := 0; k < len(ms) && k < 3; k++ {
 				mk("mutant-"+ms[k].name+"/"+name, ms[k].s, content, nil)
+				if rng.Intn(2) == 0 && len(ms[k].s) > 0 {
+					// a mutant that is also cut: which of the two defects is reported (the order of the reader's checks)
+					mk("cut-mutant-"+ms[k].name+"/"+name, ms[k].s[:rng.Intn(len(ms[k].s))], content, nil)
+				}
 			}
 		}
 		switch i % 6 {
